@@ -197,6 +197,7 @@ fn c13_alphabet(capacity: usize) -> Vec<Op> {
         Op::Resize { c: capacity + 1 },
         Op::EvictAll,
         Op::Flush,
+        Op::FlushCancel,
         Op::Fetch { k: 1, w: 1, hold: false },
         Op::Fetch { k: 3, w: 1, hold: true },
     ]
@@ -342,6 +343,40 @@ fn c14_jobs(tier: Tier) -> Vec<SeqJob> {
                     resize_any_depth: 99,
                     resize_last_depth: 99,
                     resize2_depth: 99,
+                    epilogue: false,
+                });
+            }
+        }
+    }
+    // w-TinyLFU with a 28-bucket sketch: the sketch ages after a few dozen recorded accesses. Every number of
+    // accesses from 20 to 75 is used as a prologue (fill, then look the resident keys up in turn), followed by
+    // every sequence over a reduced alphabet: the window-front / probation-front comparison is made on counts
+    // before, at and after the first, second and third aging.
+    {
+        let algo = Algo::LfuSketch { window: 0.34, protected: 0.34, eps: 0.1 };
+        let caps: Vec<usize> = if tier == Tier::Quick { vec![3] } else { vec![3, 4] };
+        for capacity in caps {
+            let universe = vec![1, 2, 3, 4, 5, 6];
+            for accesses in 20..=75usize {
+                let mut prologue: Vec<Op> = (1..=capacity as u64).map(|k| ins(k, 1)).collect();
+                for i in 0..accesses {
+                    // key 1 is looked up twice as often as the others: estimates differ between the queues
+                    let k = if i % 3 == 0 { 1 } else { (i % capacity) as u64 + 1 };
+                    prologue.push(get(k));
+                }
+                jobs.push(SeqJob {
+                    property: "C14",
+                    owned: vec!["A.", "P.", "X."],
+                    cfg: cfg(algo, capacity, 1, false, true),
+                    universe: universe.clone(),
+                    prologue,
+                    alphabet: vec![ins(4, 1), ins(5, 1), ins(6, 1), get(1), get(2), get(4)],
+                    depth1: if tier == Tier::Quick { 3 } else { 4 },
+                    depth2: 0,
+                    max_states: 0,
+                    resize_any_depth: 0,
+                    resize_last_depth: 0,
+                    resize2_depth: 0,
                     epilogue: false,
                 });
             }
